@@ -15,6 +15,7 @@ package rsync
 // No wall-clock value is ever part of the diffed output.
 
 import (
+	"hash/fnv"
 	"fmt"
 	"strings"
 	"sync"
@@ -291,13 +292,17 @@ func TestVerifC34(t *testing.T) {
 	defer rep.Write()
 	r := vfNewRng(34)
 	var allOps, allImpl [][]string
-	nA := vfScale(300, 6000)
+	nA := vfScale(300, 30000)
 	for i := 0; i < nA; i++ {
 		ops, out := c34SeqA(rep, r, 40+r.Intn(vfScale(161, 400)))
 		allOps = append(allOps, ops)
 		allImpl = append(allImpl, out)
 		j := strings.Join(out, " ")
-		rep.Case(strings.Join(ops, ";"), strings.Contains(j, "conflict") && strings.Contains(j, "blocked") && strings.Contains(j, "true"))
+		if len(allOps) >= 2000 { // compare in chunks (memory, thorough tier)
+			rep.vfCompareSegments("rsync", allOps, allImpl)
+			allOps, allImpl = nil, nil
+		}
+		rep.Case(c34Key(ops), strings.Contains(j, "conflict") && strings.Contains(j, "blocked") && strings.Contains(j, "true"))
 		for _, k := range []string{"conflict", "blocked", "panic"} {
 			rep.CountN("A:"+k, strings.Count(j, k))
 		}
@@ -307,7 +312,7 @@ func TestVerifC34(t *testing.T) {
 	}
 
 	// ---- B: concurrent runs ------------------------------------------------------
-	nB := vfScale(40, 800)
+	nB := vfScale(40, 2500)
 	for run := 0; run < nB; run++ {
 		g := 2 + r.Intn(3)
 		iters := vfScale(150, 400)
@@ -487,4 +492,14 @@ func TestVerifC34(t *testing.T) {
 	}
 
 	rep.vfCompareSegments("rsync", allOps, allImpl)
+}
+
+// c34Key identifies an op sequence by a 64-bit hash (keeps the distinct-case set small).
+func c34Key(ops []string) string {
+	h := fnv.New64a()
+	for _, o := range ops {
+		h.Write([]byte(o))
+		h.Write([]byte{'\n'})
+	}
+	return fmt.Sprintf("%016x", h.Sum64())
 }
